@@ -311,6 +311,57 @@ def check_histories(ctx, model, spec, supported):
             ctx.spec_violation("reinitialize:" + SERVER_CLAUSES.get(clause, f"clause-{clause}"), case, f"answered {a}, session {s}")
 
 
+
+def check_connections(ctx, spec, supported):
+    """Several CONNECTIONS on one server (each initialize arrives without a session id), with application code in between that
+    touches process-wide state a session id might be drawn from - it re-seeds `random`, as a tool with reproducible output
+    does.  Every connection keeps a session of its own, and that session keeps recording the version answered on ITS
+    connection."""
+    import itertools
+    import random
+    from chuk_mcp.protocol.messages.json_rpc_message import parse_message
+    pool = [{"req": "str", "value": v} for v in supported] + [{"req": "absent", "how": "params-empty"}]
+    hists = [list(h) for n in (2, 3) for h in itertools.product(pool, repeat=n)]
+    state = random.getstate()
+
+    async def main():
+        out = []
+        for hi, hist in enumerate(hists):
+            h = make_handlers()[hi % 4]
+            for reseed in (False, True):
+                steps, kept = [], []
+                for i, r in enumerate(hist):
+                    if reseed:
+                        random.seed(20250618)
+                    try:
+                        resp, new_sid = await h.handle_message(parse_message(request_dict(r, 2 * i + 1)), None)
+                        steps.append(observe_response(h, resp, new_sid))
+                        kept.append((resp, new_sid))
+                    except Exception as e:                          # noqa: BLE001
+                        steps.append((["raised", type(e).__name__], ["none"]))
+                        kept.append(None)
+                late = [observe_response(h, *k) if k is not None else st for k, st in zip(kept, steps)]
+                sids = [k[1] for k in kept if k is not None and k[1] is not None]
+                out.append((hist, reseed, steps, late, sids))
+        return out
+    try:
+        obs = asyncio.run(main())
+    finally:
+        random.setstate(state)
+    for hist, reseed, steps, late, sids in obs:
+        case = {"connections": hist, "application_reseeds_random_before_each": reseed}
+        ctx.case(case, nontrivial=True)
+        ctx.count("connections:" + ("reseeded" if reseed else "plain"))
+        ctx.spec_total += 1
+        if len(set(sids)) != len(sids):
+            ctx.spec_violation("connections-share-one-session", case, f"{len(sids)} handshakes answered, session ids {sids}")
+        for i, (st, lt) in enumerate(zip(steps, late)):
+            ctx.spec_total += 1
+            if st != lt:
+                ctx.spec_violation("session-of-one-connection-rewritten-by-another", {**case, "connection": i},
+                                   f"at return: answered {st[0]}, session {st[1]}; after the other handshakes: answered {lt[0]}, "
+                                   f"session {lt[1]}")
+
 # --------------------------------------------------------------------------- #
 # End to end: real client piped to the real handler
 # --------------------------------------------------------------------------- #
@@ -466,6 +517,7 @@ def explore(ctx, model, spec):
     supported = list(SUPPORTED_VERSIONS)
     check_server(ctx, model, spec, supported)
     check_histories(ctx, model, spec, supported)
+    check_connections(ctx, spec, supported)
     check_handshake(ctx, model, spec, supported)
     check_retry(ctx, spec, supported)
     ctx.extra["server_supported"] = supported
@@ -512,6 +564,11 @@ def replay(ctx, data):
     case = data.get("case", {})
     if case.get("retry_on_the_same_connection"):
         check_retry(ctx, spec, supported)
+        for f in ctx.spec_fail:
+            print("REPRODUCED", f["class"], f["detail"][:300])
+        return 1 if ctx.spec_fail else 0
+    if "connections" in case:
+        check_connections(ctx, spec, supported)          # the whole (small) family: it is its own minimal history
         for f in ctx.spec_fail:
             print("REPRODUCED", f["class"], f["detail"][:300])
         return 1 if ctx.spec_fail else 0
